@@ -324,8 +324,8 @@ structure Entry where
   linenum : Nat := 0
   deriving DecidableEq, Repr
 
-/-- the strip set of the flags setter: `' \t\r\f\v'` -/
-def isFlagSpace (c : Char) : Bool := c == ' ' || c == '\t' || c == '\r' || c == '\x0c' || c == '\x0b'
+/-- the strip set of the flags setter (`' \t\r\f\v'`), as probed from the live setter by the translator -/
+def isFlagSpace (c : Char) : Bool := I18n.Generated.PolibFsm.flagStripSet.contains c.toNat
 
 /-- the `POEntry.flags` setter -/
 def setFlags (flags : List Text) : List Text :=
